@@ -118,7 +118,7 @@ func (o *maurerOps) run(h *harness, r *vh.Rng) {
 			want  bool
 		}
 		e1zero := new(big.Int).SetBytes(e1).Sign() == 0 // e = 0: the statement does not enter the check
-		for _, c := range []vc{{e1, z1, false, true}, {e2, z2, false, true}, {e1, z2, false, bytes.Equal(e1, e2)}, {e1, z1, true, e1zero}} {
+		for _, c := range []vc{{e1, z1, false, true}, {e2, z2, false, true}, {e1, z2, false, vecEq(z1, z2)}, {e1, z1, true, e1zero}} {
 			got := o.verify(a, c.e, c.z, c.other)
 			xv := o.x
 			if c.other {
